@@ -133,6 +133,11 @@ func classes(sc *scen.Scenario, res *scen.Result, intended scen.Corner) []string
 		cls = append(cls, "draws:client-own")
 	}
 	cls = append(cls, fmt.Sprintf("g=%d", sc.HS.G))
+	eb := 0
+	for e := sc.RSA.E; e > 0; e >>= 8 {
+		eb++
+	}
+	cls = append(cls, fmt.Sprintf("rsa-public-exponent:%d-bytes", eb))
 	if sc.Companions > 0 {
 		cls = append(cls, "concurrent-exchanges-in-process")
 	}
@@ -273,7 +278,28 @@ func TestC06(t *testing.T) {
 				t.Errorf("violation (replay %s): %v", p, err)
 			}
 		}
-		run.Exhaustive("8 fields x leading-zero widths forced by search, 7 boundary pq products (this shard's share)", n)
+		// every key of the pool once: public exponents of one to four bytes (3, 17, 257, 49153, 65537, 2^24+43, 2^31-1)
+		for ki := range keys {
+			idx++
+			if idx%nsh != run.Shard {
+				continue
+			}
+			sc, err := scen.BuildHandshake(&detSource{seed: run.Seed*977 + uint64(idx)}, keys, scen.Corner{}, false)
+			if err != nil {
+				t.Fatalf("INFRA: %v", err)
+			}
+			sc.RSA = keys[ki]
+			sc.HS.P, sc.HS.Q = 1000003, 1000033
+			n++
+			if err := evaluate(sc, scen.Corner{}); err != nil {
+				if strings.HasPrefix(err.Error(), "INFRA:") {
+					t.Fatalf("%v", err)
+				}
+				p := run.ViolationNamed(fmt.Sprintf("key-%d-e-%d", ki, keys[ki].E), sc, err.Error())
+				t.Errorf("violation (replay %s): %v", p, err)
+			}
+		}
+		run.Exhaustive("8 fields x leading-zero widths forced by search, 7 boundary pq products, every RSA key of the pool (this shard's share)", n)
 	})
 	if t.Failed() {
 		return
